@@ -270,6 +270,14 @@ def oracle(rng, thorough, deep=False, hints=None):
                  range2=[float(rng.choice([-50, -40])), float(rng.choice([40, 65]))],
                  axis="x" if (kind == "tilt" and it % 2) else "y")
         cases.append(c)
+    # edges of the quantifier: a tilt bound of exactly 0 (half tilt series), +-90, identical ranges on both axes
+    edge_ranges = [[0.0, 60.0], [-50.0, 0.0], [0.0, 90.0], [-90.0, 0.0], [0, 45], [-60.0, 60.0]]
+    for it, rg in enumerate(edge_ranges if (thorough or deep) else edge_ranges[:4]):
+        rot = rots[int(rng.integers(0, len(rots)))]
+        shape = fixed_shapes[(it + 3) % len(fixed_shapes)]
+        for kind in ("tilt", "entry", "dual", "backend"):
+            cases.append(dict(kind=kind, shape=list(shape), quat=rot.as_quat().tolist(), range=list(rg),
+                              range2=list(rg) if it % 2 == 0 else [rg[0], rg[1]], axis="x" if (it % 2 and kind == "tilt") else "y"))
     viols, stats = [], {"by_kind": {}, "samples": [{"oracle_case": c} for c in cases[:2]]}
     for c in cases:
         stats["by_kind"][c["kind"]] = stats["by_kind"].get(c["kind"], 0) + 1
